@@ -3,7 +3,7 @@
 Metamorphic: decode s1..sn together vs each si alone vs a permutation (all bytes built by
 the reference), comparing values, labels, links and the per-subset hierarchical view; the
 encoder side must give the reference bytes (concatenation of the single-subset data)."""
-from vlib import runner, sut, std, encutil
+from vlib import runner, sut, std, encutil, fuzz
 from vlib.compare import first_value_diff
 from vlib.runner import Outcome, Report
 from gen import messages as gmsg, templates as gtemplates
@@ -134,6 +134,13 @@ def gen(tier):
     return lambda ch: gmsg.gen_case(ch, opts)
 
 
+# ---- coverage-guided stage: the same generator and oracle, decisions taken from fuzzer bytes (vlib.fuzz) ----
+_fuzz_gen = gen('quick')
+
+
+fuzz_case = fuzz.structured_target(_fuzz_gen, check_case)
+
+
 def run(tier, seed):
     rep = Report(PID, tier, seed, 'exploration')
     rep.rule = ('uncompressed messages with 2..n subsets from the C01 generator (replication and bitmap constructs weighted up, '
@@ -147,6 +154,7 @@ def run(tier, seed):
     n = 3000 if tier == 'quick' else 80000
     runner.run_generated(rep, gen(tier), check_case, n, runner.tier_workers(tier),
                          shrink_s=20 if tier == 'quick' else 120)
+    fuzz.run_structured(rep, 'checks.c06', _fuzz_gen, tier)
     return rep.finish()
 
 
